@@ -465,7 +465,8 @@ func (t *TriDense) Copy(a Matrix) (r, c int) {
 // Note that matrix inversion is numerically unstable, and should generally be
 // avoided where possible, for example by using the Solve routines.
 func (t *TriDense) InverseTri(a Triangular) error {
-	t.checkOverlapMatrix(a)
+	aU, _ := untransposeTri(a)
+	t.checkOverlapMatrix(aU)
 	n, _ := a.Triangle()
 	t.reuseAsNonZeroed(a.Triangle())
 	t.Copy(a)
@@ -595,7 +596,8 @@ func (t *TriDense) ScaleTri(f float64, a Triangular) {
 		}
 		return
 	default:
-		t.checkOverlapMatrix(a)
+		aU, _ := untransposeTri(a)
+		t.checkOverlapMatrix(aU)
 		isUpper := kind == Upper
 		for i := 0; i < n; i++ {
 			if isUpper {
